@@ -40,9 +40,19 @@ type Scenario struct {
 	S2S    bool     `json:"s2s"`
 	// FailClose: the transport fails the (first) write of the closing stream tag
 	FailClose bool `json:"failclose"`
+	// MaxRuns caps the schedules explored for this scenario (0: the run's own bound); used by the scenarios that
+	// let real time go by
+	MaxRuns int `json:"maxruns,omitempty"`
 }
 
 const hdrIn = `<stream:stream from="example.net" to="me@example.net" id="123" version="1.0" xmlns="jabber:client" xmlns:stream="http://etherx.jabber.org/streams">`
+
+func capRuns(run, scen int) int {
+	if scen > 0 && (run == 0 || scen < run) {
+		return scen
+	}
+	return run
+}
 
 func nopNeg(ns string) xmpp.Negotiator {
 	return func(ctx context.Context, in, out *stream.Info, s *xmpp.Session, data interface{}) (xmpp.SessionState, io.ReadWriter, interface{}, error) {
@@ -331,6 +341,22 @@ func runSchedule(sc Scenario, choices []int) result {
 						sess.SetCloseDeadline(time.Now().Add(24 * time.Hour))
 						return
 					}
+					if it == "dl2" {
+						// SetCloseDeadline twice in a row: a time one second away, then - replacing it - a time
+						// virtual time has not reached yet. (The only real clock of this driver: the library keeps
+						// the deadline in a context, whose timer cannot be virtualised. The two calls are
+						// microseconds apart; "dlold" lets the second that was replaced go by.)
+						lg.Add(vt.Ev{"ev": "deadline_set"})
+						sess.SetCloseDeadline(time.Now().Add(time.Second))
+						lg.Add(vt.Ev{"ev": "deadline_reset"})
+						sess.SetCloseDeadline(time.Now().Add(24 * time.Hour))
+						return
+					}
+					if it == "dlold" {
+						time.Sleep(1300 * time.Millisecond)
+						lg.Add(vt.Ev{"ev": "deadline_old"})
+						return
+					}
 					if it == "dlfire" {
 						// virtual time passes the deadline that was set (whatever the transport
 						// has been told since)
@@ -523,7 +549,7 @@ func main() {
 		n := vt.Explore(func(choices []int) vt.RunResult {
 			lastRes = runSchedule(sc, choices)
 			return lastRes.res
-		}, maxPre, maxRuns, func(choices []int) bool {
+		}, maxPre, capRuns(maxRuns, sc.MaxRuns), func(choices []int) bool {
 			runs++
 			if lastRes.note == "stuck" {
 				stuck++
@@ -549,7 +575,7 @@ func main() {
 			}
 			script := []string{}
 			for _, it := range sc.Script {
-				if it != "deadline" && it != "dlset" && it != "dlfire" {
+				if it != "deadline" && it != "dlset" && it != "dlfire" && it != "dl2" && it != "dlold" {
 					script = append(script, it)
 				}
 			}
